@@ -1,4 +1,4 @@
-import FatVerif.Proofs.DirWriteSim36
+import FatVerif.Proofs.DirWriteSim45
 /-! # C01 (simulation) — the effectful directory READER is the pure reader on the bytes of the image
 
 The directory code of the model (`Model/DirOps.lean`, programs over a device) and the slot-list algebra
@@ -18,7 +18,11 @@ cluster-chain directory calls `flush` on the storage, so the log gains `flush` r
 schedule and WRITE records are untouched (`SameVol`). Hypothesis kept for cluster-chain directories:
 `update_accessed_date` is off or the handle has no directory entry (FAT32 root) — with the option on, reading a
 sub-directory stamps its entry and the destructor WRITES it (that is the library's behaviour, not covered here).
-The writes (`write_entry`, `remove`, …) are not covered yet. -/
+Part 3 (sections "WRITES"): forward simulation of the mutating directory code on the image, for the fixed root, cluster
+chains without an entry (root of FAT32) and sub-directories (generic layer `WView`, Proofs/DirWriteSim1–37):
+`deleteEntry`, `write_entry` (also `.`/`..`, also across one growth of a chain directory), and the whole operations
+`create_file`, `create_dir`, `remove` (file / empty directory), `rename` (file or directory, inside one directory or
+between two directories) — single-component paths, success paths; each with a non-vacuity example (`Ex4`–`Ex9`). -/
 namespace FatVerif.DirSim
 
 /-- the slots of the fixed root directory of a volume with geometry `fs`, as a function of the image -/
@@ -1347,5 +1351,400 @@ example : ∃ d' : Dev, run (renameInternal Ex3.env (.file (FileH.new (some 2) (
 
 
 end Ex8
+
+/-! ## WRITES: `create_file` across one growth of the directory (cluster chain without an entry: the root of FAT32) -/
+
+open FatVerif.FileSim FatVerif.Fat in
+/-- **`createFile_sim` with growth**: as `createFile_chain_sim`, but the new entry does not fit into the allocated
+    clusters and fits after one more (`writeEntry_chain_grow_sim`): the directory then has the chain `chain ++ [c]` -/
+theorem createFile_chain_grow_sim {d : Dev} {c0 : Nat} {chain : List Nat} (h : ChainReadable d c0 none chain)
+    (hwf : d.img.WF) (hinfo : InfoOk d.fs d.img) (ha : d.fs.lfnAlloc = true) (env : Env) (path name : String)
+    (hsp : Names.splitPath path = (name, none)) (hdot : (name = "." || name = "..") = false)
+    (hval : Names.validateLongName name = .ok ()) (a : List Nat)
+    (hchk : DirAlias.checkForExistenceL env.upper (chainSlots d.fs d.img chain) name (some false) 70000 = .ok (.alias a))
+    (c last : Nat) (hlast : chain.getLast? = some last) (hlv : tabView d.fs d.img last ≠ .free)
+    (hfind : allocFindV (tabView d.fs d.img) d.fs.fsInfo.next d.fs.totalClusters = some c)
+    (hu32 : (chain.length + 1) * d.fs.clusterSize < 4294967296)
+    (hfuel' : (chain.length + 1) * (d.fs.clusterSize / 32) < dirFuel d.fs)
+    (hgrow : chain.length * (d.fs.clusterSize / 32) <
+      DirSlots.findFree (chainSlots d.fs d.img chain) (Lfn.numParts (Names.encodeUtf16 name.toList).length + 1) +
+        (Lfn.numParts (Names.encodeUtf16 name.toList).length + 1))
+    (hfit : DirSlots.findFree (chainSlots d.fs d.img chain) (Lfn.numParts (Names.encodeUtf16 name.toList).length + 1) +
+        (Lfn.numParts (Names.encodeUtf16 name.toList).length + 1) ≤
+      chain.length * (d.fs.clusterSize / 32) + d.fs.clusterSize / 32) (fuel : Nat) :
+    ∃ (d' : Dev) (e : DirEntry), run (createFile env (fuel + 1) (.file (FileH.new (some c0) none)) path) d =
+        (.ok (FileH.new (e.firstCluster d.fs) (some e.editor)), d') ∧
+      e.data = sfnAt d.fs d.clock a 0 none ∧ e.lfn = Names.encodeUtf16 name.toList ∧
+      chainSlots d'.fs d'.img (chain ++ [c]) =
+        DirSlots.writeEntry (chainSlots d.fs d.img chain) (Names.encodeUtf16 name.toList)
+          (sfnAt d.fs d.clock a 0 none).serialize ++
+          List.replicate (chain.length * (d.fs.clusterSize / 32) + d.fs.clusterSize / 32 -
+            (DirSlots.findFree (chainSlots d.fs d.img chain) (Lfn.numParts (Names.encodeUtf16 name.toList).length + 1) +
+              (Lfn.numParts (Names.encodeUtf16 name.toList).length + 1))) DirSlots.zeroSlot ∧
+      d'.fs.curDirty = true ∧ d'.img.WF ∧ ChainReadable d' c0 none (chain ++ [c]) := by
+  have hce := checkForExistence_chain_sim h ha env name (some false)
+  rw [hchk] at hce
+  obtain ⟨d1, h1, hs1⟩ := hce
+  have h' : ChainReadable d1 c0 none chain := ⟨h.dir.of_sameVol hs1, by rw [hs1.fs]; exact h.fuel⟩
+  obtain ⟨hcan, hl11, _⟩ := C16dir.dir_alias_canon env.upper (chainSlots d.fs d.img chain) name (some false) 70000 a hchk
+  have hrawwf := sfnAt_wf d.fs d.clock a 0 none hl11 (canon_lt hcan) (by omega)
+  have hrawlfn : attrsIsLfn (sfnAt d.fs d.clock a 0 none).attrs = false := by rw [sfnAt_attrs]; decide
+  obtain ⟨d', e, hr, he1, he2, hsl, hd, hwf', hread'⟩ := writeEntry_chain_grow_sim h' (by rw [hs1.img]; exact hwf)
+    (by rw [hs1.fs, hs1.img]; exact hinfo) c last hlast (by rw [hs1.fs, hs1.img]; exact hlv)
+    (by rw [hs1.fs, hs1.img]; exact hfind) (by rw [hs1.fs]; exact hu32) (by rw [hs1.fs]; exact hfuel') name
+    (sfnAt d.fs d.clock a 0 none) hval hdot hrawwf hrawlfn (by rw [hs1.fs, hs1.img]; exact hgrow)
+    (by rw [hs1.fs, hs1.img]; exact hfit)
+  rw [hs1.fs, hs1.img] at hsl
+  refine ⟨d', e, ?_, he1, he2, hsl, hd, hwf', hread'⟩
+  unfold FatVerif.createFile
+  rw [run_bind_ok (run_getFs d), hsp]
+  simp only [hdot, Bool.false_eq_true, if_false]
+  rw [run_bind_ok h1]
+  simp only [liftEOA]
+  rw [run_bind_ok (run_createSfnEntry a 0 none d1), hs1.fs, run_clock _ _ _ _ h1, run_bind_ok hr]
+  unfold DirEntry.toFile
+  have : e.isDir = false := by
+    unfold DirEntry.isDir; rw [he1]; exact sfnAt_isDir_false d.fs d.clock a none
+  rw [this]
+  rfl
+
+/-! ## non-vacuity: `create_file("N")` in a FULL one-cluster directory (16 entries "B"): the directory grows by cluster 3 -/
+
+namespace Ex9
+def bytes : List Nat :=
+  List.replicate 512 0 ++
+  ([0xF8, 0xFF, 0xFF, 0xFF, 0xFF, 0xFF] ++ List.replicate 506 0) ++
+  List.replicate 512 0 ++
+  (List.replicate 16 (DirFileEntryData.new Ex.sfn2 0x10).serialize).flatten ++
+  List.replicate 2048 0
+def dev : Dev := { img := Img.ofBytes bytes 4096, fs := Ex2.fs }
+end Ex9
+
+theorem Ex9.wf : Ex9.dev.img.WF := by
+  intro k p hk
+  simp only [Ex9.dev, Img.ofBytes, Std.HashMap.getElem?_insert] at hk
+  split at hk
+  · cases hk; decide +kernel
+  · simp at hk
+
+open FatVerif.FileSim FatVerif.Fat in
+theorem Ex9.readable : ChainReadable Ex9.dev 2 none [2] := by
+  have h2 : tabView Ex2.fs Ex9.dev.img 2 = .eoc := by decide +kernel
+  refine ⟨⟨rfl, ⟨by decide, by decide, by decide, by decide, by decide, by decide, by decide, by decide, by decide,
+    by decide, by decide⟩,
+    rfl, ?_, by decide, rfl, Or.inr rfl, (fun e he => by cases he), by decide, by decide⟩, by decide⟩
+  exact Chain.last 2 (fun n hn => by
+    have : tabView Ex9.dev.fs Ex9.dev.img 2 = .eoc := h2
+    rw [this] at hn; cases hn)
+
+open FatVerif.FileSim FatVerif.Fat in
+/-- all hypotheses of `createFile_chain_grow_sim` hold: the 2 slots of "N" start at slot 16 (the end of the directory),
+    the allocator finds cluster 3; afterwards the directory has the chain `[2, 3]` and 32 slots -/
+example : ∃ (d' : Dev) (e : DirEntry),
+    run (createFile Ex3.env 1 (.file (FileH.new (some 2) none)) "N") Ex9.dev =
+      (.ok (FileH.new (e.firstCluster Ex9.dev.fs) (some e.editor)), d') ∧
+    ChainReadable d' 2 none [2, 3] ∧ (chainSlots d'.fs d'.img [2, 3]).length = 32 := by
+  have h2 : tabView Ex9.dev.fs Ex9.dev.img 2 = .eoc := by decide +kernel
+  obtain ⟨d', e, hr, _, _, hsl, _, _, hread⟩ := createFile_chain_grow_sim Ex9.readable Ex9.wf
+    ⟨fun n hn => (by cases hn), fun n hn => (by cases hn)⟩ rfl Ex3.env "N" "N" (by decide +kernel) (by decide)
+    (by decide +kernel) [78, 32, 32, 32, 32, 32, 32, 32, 32, 32, 32] (by decide +kernel) 3 2 rfl
+    (by rw [h2]; exact fun h => by cases h) (by decide +kernel) (by decide) (by decide) (by decide +kernel)
+    (by decide +kernel) 0
+  refine ⟨d', e, hr, hread, ?_⟩
+  have : ([2] ++ [3] : List Nat) = [2, 3] := rfl
+  rw [this] at hsl
+  rw [hsl]
+  decide +kernel
+
+/-! ## `create_file` in a sub-directory (`WView.createFile_sim`; the write stamps the directory's own entry in its parent)
+
+Non-vacuity: `create_file("H")` in the directory `A` of `Ex8`. -/
+
+example : ∃ (d' : Dev) (e : DirEntry),
+    run (createFile Ex3.env 1 (.file (FileH.new (some 2) (some Ex8.edA))) "H") Ex8.dev =
+      (.ok (FileH.new (e.firstCluster Ex8.dev.fs) (some e.editor)), d') ∧
+    Ex8.VA.slots d'.img = DirSlots.writeEntry (Ex8.VA.slots Ex8.dev.img) (Names.encodeUtf16 "H".toList)
+      (sfnAt Ex8.dev.fs Ex8.dev.clock [72, 32, 32, 32, 32, 32, 32, 32, 32, 32, 32] 0 none).serialize ∧
+    d'.fs.curDirty = true := by
+  obtain ⟨d', e, hr, _, _, _, hd, _, hsl, _⟩ := Ex8.VA.createFile_sim Ex3.env "H" "H" (by decide +kernel) (by decide)
+    (by decide +kernel) rfl [72, 32, 32, 32, 32, 32, 32, 32, 32, 32, 32] (by decide +kernel) (by decide +kernel) 0
+  exact ⟨d', e, hr, hsl, hd⟩
+
+/-! ## `create_dir` with a cluster-chain directory without an entry (the root of FAT32) as parent -/
+
+open FatVerif.FileSim FatVerif.Fat in
+/-- **`createDir_sim`, chain parent without an entry**: as `createDir_root_sim`; `hlastv`: the last cluster of the
+    parent's chain is not free (so the free cluster `c` is not on the chain) -/
+theorem createDir_chain_sim {d : Dev} {c0 : Nat} {chain : List Nat} (h : ChainReadable d c0 none chain)
+    (hwf : d.img.WF) (hinfo : InfoOk d.fs d.img) (ha : d.fs.lfnAlloc = true) (hacc : d.fs.accDate = false)
+    (hcs64 : 64 ≤ d.fs.clusterSize) (hu32 : d.fs.clusterSize < 4294967296)
+    (hfuelN : d.fs.clusterSize / 32 < dirFuel d.fs) (env : Env) (path name : String)
+    (hsp : Names.splitPath path = (name, none)) (hdot : (name = "." || name = "..") = false)
+    (hval : Names.validateLongName name = .ok ()) (a : List Nat)
+    (hchk : DirAlias.checkForExistenceL env.upper (chainSlots d.fs d.img chain) name (some true) 70000 = .ok (.alias a))
+    (c : Nat) (hfind : allocFindV (tabView d.fs d.img) d.fs.fsInfo.next d.fs.totalClusters = some c)
+    (hlastv : ∀ l, chain.getLast? = some l → tabView d.fs d.img l ≠ .free)
+    (hfit : DirSlots.findFree (chainSlots d.fs d.img chain) (Lfn.numParts (Names.encodeUtf16 name.toList).length + 1) +
+      (Lfn.numParts (Names.encodeUtf16 name.toList).length + 1) ≤ chain.length * (d.fs.clusterSize / 32)) (fuel : Nat) :
+    ∃ (d' : Dev) (ed0 : DirEntryEditor),
+      run (createDir env (fuel + 1) (.file (FileH.new (some c0) none)) path) d =
+        (.ok (.file (FileH.new (some c) (some ed0))), d') ∧
+      ed0.data = sfnAt d.fs d.clock a 16 (some c) ∧
+      chainSlots d'.fs d'.img chain = DirSlots.writeEntry (chainSlots d.fs d.img chain) (Names.encodeUtf16 name.toList)
+        (DirAlias.sfnWith a (16 :: sfnStamp d.fs d.clock (some c))) ∧
+      tabView d'.fs d'.img = updV (tabView d.fs d.img) c .eoc ∧
+      chainSlots d'.fs d'.img [c] =
+        DirAlias.sfnWith (46 :: List.replicate 10 32) (16 :: sfnStamp d.fs d.clock (some c)) ::
+        DirAlias.sfnWith (46 :: 46 :: List.replicate 9 32) (16 :: sfnStamp d.fs d.clock none) ::
+        List.replicate (d.fs.clusterSize / 32 - 2) (List.replicate 32 0) ∧
+      ChainReadable d' c (some ed0) [c] ∧ ChainReadable d' c0 none chain ∧ d'.fs.curDirty = true ∧ d'.img.WF := by
+  have hgeo := h.dir.geo
+  obtain ⟨hc2, hct, hcf⟩ := allocFindV_some _ _ _ _ hinfo.hint hfind
+  have hcnot : c ∉ chain := free_not_in_chain h.dir.link hcf hlastv
+  obtain ⟨V, hN, hsrc, hEx, hInv⟩ : ∃ V : WView d (.file (FileH.new (some c0) none)),
+      V.N = chain.length * (d.fs.clusterSize / 32) ∧ V.src = chainSrc d.fs chain ∧ V.Extra = (fun _ => False) ∧
+      V.Inv = ChainInv d.fs (FileH.new (some c0) none) c0 chain :=
+    ⟨WView.ofChain d c0 chain h.dir hwf h.fuel, rfl, rfl, rfl, rfl⟩
+  have hsl : V.slots d.img = chainSlots d.fs d.img chain := by
+    unfold WView.slots; rw [hN, hsrc]; exact h.slots_eq
+  have hinv0 := h.inv hwf
+  obtain ⟨d', hr, hs, hd, hinv', hsl', htv, hnew, hC, _⟩ := V.createDir_sim env path name hsp hdot hval ha hgeo hinfo hacc
+    h.dir.cs32 hcs64 hu32 hfuelN a (by rw [hsl]; exact hchk) c hfind (by rw [hsl, hN]; exact hfit)
+    (fun d1 d2 hv _ hal => by rw [hInv]; exact hinv0.of_alloc hv hal hcnot)
+    (fun d1 d2 hi hs _ htv => by rw [hInv] at hi ⊢; exact hi.of_volStep hs htv)
+    (fun i hi => by
+      rw [hN] at hi
+      rw [hsrc]
+      obtain ⟨x, hx, h1, h2⟩ := h.dir.core.slot_in_cluster i hi
+      have h3 := hgeo.fat_data
+      have h4 := clusterOff_ge d.fs x
+      have h5 := (clusterOff_end hgeo (h.dir.inTab x hx).1 (h.dir.inTab x hx).2).2
+      have hxc : x ≠ c := fun e => hcnot (e ▸ hx)
+      have h6 := cluster_ranges_disjoint d.fs (h.dir.inTab x hx).1 hc2 hxc
+      exact ⟨by omega, by omega, by omega⟩)
+    (fun q hq => by rw [hEx] at hq; exact hq.elim) fuel
+  rw [hInv] at hinv'
+  have hdd : (if (DirStream.file (FileH.new (some c0) none)).isRootDir then none
+      else (DirStream.file (FileH.new (some c0) none)).firstCluster) = none := rfl
+  rw [hdd] at hnew
+  refine ⟨d', _, hr, rfl, ?_, htv, ?_, ⟨hC, ?_⟩, ChainReadable.of_inv hinv', hd, hs.wf hwf⟩
+  · rw [chainSlots_of_inv hinv', ← hsl]
+    have : V.slots d'.img = srcSlots d'.img (chainSrc d.fs chain) (chain.length * (d.fs.clusterSize / 32)) := by
+      unfold WView.slots; rw [hN, hsrc]
+    rw [← this, hsl']
+  · rw [← hnew, ← srcSlots_chain d'.fs d'.img hC.geo.cs_pos hC.cs32 [c], chainSrc_geom hs.geom, hs.geom.clusterSize,
+      List.length_singleton, Nat.one_mul]
+  · rw [List.length_singleton, Nat.one_mul, hs.geom.clusterSize, dirFuel_geomEq hs.geom]; exact hfuelN
+
+open FatVerif.FileSim FatVerif.Fat in
+/-- non-vacuity: `create_dir("N")` in the two-cluster directory of `Ex5` (allocator: cluster 4; entry at slots 18–19) -/
+example : ∃ (d' : Dev) (ed0 : DirEntryEditor),
+    run (createDir Ex3.env 1 (.file (FileH.new (some 2) none)) "N") Ex5.dev = (.ok (.file (FileH.new (some 4) (some ed0))), d') ∧
+    tabView d'.fs d'.img 4 = .eoc ∧ ChainReadable d' 4 (some ed0) [4] ∧ ChainReadable d' 2 none [2, 3] := by
+  have h3 : tabView Ex5.dev.fs Ex5.dev.img 3 = .eoc := by decide +kernel
+  obtain ⟨d', ed0, hr, _, _, htv, _, hC, hP, _⟩ := createDir_chain_sim Ex5.readable Ex5.wf
+    ⟨fun n hn => (by cases hn), fun n hn => (by cases hn)⟩ rfl rfl (by decide) (by decide) (by decide) Ex3.env "N" "N"
+    (by decide +kernel) (by decide) (by decide +kernel) [78, 32, 32, 32, 32, 32, 32, 32, 32, 32, 32] (by decide +kernel) 4
+    (by decide +kernel) (fun l hl => by
+      have : l = 3 := by simpa using hl.symm
+      rw [this, h3]; exact fun h => by cases h) (by decide +kernel) 0
+  exact ⟨d', ed0, hr, by rw [htv]; rfl, hC, hP⟩
+
+open FatVerif.FileSim FatVerif.Fat in
+/-- non-vacuity of `WView.createDir_sim` with a SUB-DIRECTORY as parent: `create_dir("N")` in the directory `A` of `Ex8`
+    (allocator: cluster 5); the `..` record of the new directory names cluster 2 -/
+example : ∃ (d' : Dev) (ed0 : DirEntryEditor),
+    run (createDir Ex3.env 1 (.file (FileH.new (some 2) (some Ex8.edA))) "N") Ex8.dev =
+      (.ok (.file (FileH.new (some 5) (some ed0))), d') ∧
+    tabView d'.fs d'.img 5 = .eoc ∧
+    (srcSlots d'.img (chainSrc Ex8.dev.fs [5]) (Ex8.dev.fs.clusterSize / 32)).getD 1 [] =
+      DirAlias.sfnWith (46 :: 46 :: List.replicate 9 32) (16 :: sfnStamp Ex8.dev.fs Ex8.dev.clock (some 2)) := by
+  have hhere : SubInv Ex8.dev.fs Ex8.edA 2 [2] Ex8.dev.clock Ex8.dev := Ex8.VA.here
+  have hfe : (fatSliceOf Ex8.dev.fs).beginOff + (fatSliceOf Ex8.dev.fs).mirrors * (fatSliceOf Ex8.dev.fs).size = 1024 := by
+    decide
+  have hcs : Ex8.dev.fs.clusterSize = 512 := by decide
+  have hsz : Ex8.dev.img.size = 4096 := by decide
+  obtain ⟨d', hr, _, _, _, _, htv, hnew, _⟩ := Ex8.VA.createDir_sim Ex3.env "N" "N" (by decide +kernel) (by decide)
+    (by decide +kernel) rfl Ex8.geo ⟨fun n hn => (by cases hn), fun n hn => (by cases hn)⟩ rfl (by decide) (by decide)
+    (by decide) (by decide) [78, 32, 32, 32, 32, 32, 32, 32, 32, 32, 32] (by decide +kernel) 5 (by decide +kernel)
+    (by decide +kernel)
+    (fun d1 d2 hv hc hal => SubInv.of_alloc hhere hv hc hal (by decide))
+    (fun d1 d2 hi hs hc htv => SubInv.of_volStep hi hs hc htv)
+    (fun i hi => by
+      have hi' : i < 16 := hi
+      have e : Ex8.VA.src (32 * i) = chainSrc Ex8.dev.fs [2] (32 * i) := rfl
+      rw [e, Ex8.src 2 i hi', Ex8.off, Ex8.off, hfe, hcs, hsz]
+      omega)
+    (fun q hq => by
+      have hq' : subExtra Ex8.edA q := hq
+      unfold subExtra at hq'
+      have : Ex8.edA.pos = 1024 := rfl
+      rw [Ex8.off, hfe, hcs]
+      omega) 0
+  refine ⟨d', _, hr, by rw [htv]; rfl, ?_⟩
+  rw [hnew]
+  rfl
+
+/-! ## the outcomes of the mutating calls that only read (Proofs/DirWriteSim38)
+
+`DirView.createFile_exists_sim` / `createDir_exists_sim` (the name exists: it is opened), `createFile_fails_sim` /
+`createDir_fails_sim` (wrong kind: `InvalidInput`), `remove_fails_sim` (`NotFound`), `remove_nonEmpty_sim`
+(`DirNotEmpty`), `rename_src_fails_sim`, `rename_file_dst_exists_sim` (`AlreadyExists`, or nothing when it is the source
+entry itself). All keep the volume (`Reads` / `FailsV`). Non-vacuity on `Ex4` and `Ex3`: -/
+
+/-- `create_file("hello.TXT")` opens the existing file; `create_dir("Hello.txt")` fails with `InvalidInput` (it is a
+    file); `remove("nothing")` fails with `NotFound`; `rename("hello.txt", "b")` fails with `AlreadyExists` -/
+example :
+    Reads (createFile Ex3.env 1 (rootAt Ex4.dev.fs 0) "hello.TXT") Ex4.dev
+      (FileH.new ((toDirEntryS (DirView.ofRoot Ex4.readable).src Ex4.hello).firstCluster Ex4.dev.fs)
+        (some (toDirEntryS (DirView.ofRoot Ex4.readable).src Ex4.hello).editor)) ∧
+    FailsV (createDir Ex3.env 1 (rootAt Ex4.dev.fs 0) "Hello.txt") Ex4.dev .invalidInput ∧
+    FailsV (remove Ex3.env 1 (rootAt Ex4.dev.fs 0) "nothing") Ex4.dev .notFound ∧
+    FailsV (renameInternal Ex3.env (rootAt Ex4.dev.fs 0) "hello.txt" (rootAt Ex4.dev.fs 0) "b") Ex4.dev .alreadyExists := by
+  refine ⟨?_, ?_, ?_, ?_⟩
+  · exact (DirView.ofRoot Ex4.readable).createFile_exists_sim rfl Ex3.env "hello.TXT" "hello.TXT" (by decide +kernel)
+      (by decide) Ex4.hello (by decide +kernel) 0 Ex4.dev (SameVol.refl _)
+  · exact (DirView.ofRoot Ex4.readable).createDir_fails_sim rfl Ex3.env "Hello.txt" "Hello.txt" (by decide +kernel)
+      .invalidInput (by decide +kernel) 0 Ex4.dev (SameVol.refl _)
+  · exact (DirView.ofRoot Ex4.readable).remove_fails_sim Ex3.env "nothing" "nothing" (by decide +kernel) (by decide)
+      .notFound (by decide +kernel) 0 Ex4.dev (SameVol.refl _)
+  · exact ((DirView.ofRoot Ex4.readable).rename_file_dst_exists_sim (DirView.ofRoot Ex4.readable) rfl Ex3.env
+      "hello.txt" "b" (by decide) (by decide +kernel) (toDirEntryS (DirView.ofRoot Ex4.readable).src Ex4.hello)
+      (by decide +kernel) (by decide +kernel) ⟨(DirFileEntryData.new Ex.sfn2 0x10).serialize, [], 2, 3⟩ (by decide +kernel) Ex4.dev
+      (SameVol.refl _)).2 (by decide +kernel)
+
+/-- `remove("SUB")` on the root of `Ex3` fails with `DirNotEmpty`: `SUB` lists "B" and "Hello.txt" -/
+example : FailsV (remove Ex3.env 1 (rootAt Ex3.dev.fs 0) "SUB") Ex3.dev .dirNotEmpty := by
+  have h1 : (DirView.ofRoot Ex3.root).lookup Ex3.env "SUB" none = .ok Ex3.subE := by decide +kernel
+  obtain ⟨Vs, hVs⟩ : ∃ Vs : DirView Ex3.dev (DirEntry.dirStream Ex3.dev.fs Ex3.subE), Vs.isEmptyV = false := by
+    rw [Ex3.sub_stream]
+    exact ⟨DirView.ofChain Ex3.sub, by decide +kernel⟩
+  exact (DirView.ofRoot Ex3.root).remove_nonEmpty_sim Ex3.env "SUB" "SUB" (by decide +kernel) (by decide) Ex3.subE h1
+    (by decide +kernel) Vs hVs 0 Ex3.dev (SameVol.refl _)
+
+/-! ## `create_dir` on a full volume: `NotEnoughSpace`, nothing changes (`DirView.createDir_noSpace_sim`) -/
+
+namespace Ex10
+/-- the geometry of `Ex2`, all four clusters in use (each an end of chain), the root empty -/
+def bytes : List Nat :=
+  List.replicate 512 0 ++
+  ([0xF8, 0xFF, 0xFF, 0xFF, 0xFF, 0xFF, 0xFF, 0xFF, 0xFF, 0xFF, 0xFF, 0xFF] ++ List.replicate 500 0) ++
+  List.replicate 3072 0
+def dev : Dev := { img := Img.ofBytes bytes 4096, fs := Ex2.fs }
+end Ex10
+
+theorem Ex10.wf : Ex10.dev.img.WF := by
+  intro k p hk
+  simp only [Ex10.dev, Img.ofBytes, Std.HashMap.getElem?_insert] at hk
+  split at hk
+  · cases hk; decide +kernel
+  · simp at hk
+
+theorem Ex10.root : RootReadable Ex10.dev 16 := ⟨rfl, by decide, by decide, by decide⟩
+
+open FatVerif.FileSim FatVerif.Fat in
+example : FailsV (createDir Ex3.env 1 (rootAt Ex10.dev.fs 0) "N") Ex10.dev .noSpace :=
+  (DirView.ofRoot Ex10.root).createDir_noSpace_sim rfl Ex3.env "N" "N" (by decide +kernel) (by decide) (by decide +kernel)
+    [78, 32, 32, 32, 32, 32, 32, 32, 32, 32, 32] (by decide +kernel) rfl Ex10.wf
+    ⟨by decide, by decide, by decide, by decide, by decide, by decide, by decide, by decide, by decide, by decide,
+      by decide⟩
+    ⟨fun n hn => (by cases hn), fun n hn => (by cases hn)⟩ (by decide +kernel) 0
+
+/-! ## `create_dir` when the parent is full and grows (Proofs/DirWriteSim40–42)
+
+`createDir_chain_grow`: the parent is a cluster chain without an entry (the root of FAT32); `alloc_cluster(None, true)`
+takes `c` for the new directory, then `write_entry` in the parent allocates `c2` behind the parent's last cluster
+(`chain_writeEntry_grow_tv`: the FAT afterwards is `allocLinkV (updV tv c EOC) (some last) c2`), then the dot entries
+(`createDir_child`). Non-vacuity: `create_dir("N")` in the full directory of `Ex9`: `c = 3`, `c2 = 4`. -/
+
+open FatVerif.FileSim FatVerif.Fat in
+example : ∃ (d' : Dev) (ed0 : DirEntryEditor),
+    run (createDir Ex3.env 1 (.file (FileH.new (some 2) none)) "N") Ex9.dev = (.ok (.file (FileH.new (some 3) (some ed0))), d') ∧
+    tabView d'.fs d'.img 2 = .data 4 ∧ tabView d'.fs d'.img 3 = .eoc ∧ tabView d'.fs d'.img 4 = .eoc ∧
+    ChainDir d' (FileH.new (some 3) (some ed0)) 3 [3] := by
+  have h2 : tabView Ex9.dev.fs Ex9.dev.img 2 = .eoc := by decide +kernel
+  obtain ⟨d', ed0, hr, _, _, _, _, _, htv, _, hC⟩ := createDir_chain_grow Ex9.dev 2 [2] Ex9.readable.dir Ex9.wf (by decide)
+    ⟨fun n hn => (by cases hn), fun n hn => (by cases hn)⟩ rfl rfl (by decide) (by decide) (by decide) (by decide) Ex3.env
+    "N" "N" (by decide +kernel) (by decide) (by decide +kernel) [78, 32, 32, 32, 32, 32, 32, 32, 32, 32, 32]
+    (by decide +kernel) 3 (by decide +kernel) 2 rfl (by rw [h2]; exact fun h => by cases h) 4 (by decide +kernel)
+    (by decide +kernel) (by decide +kernel) 0
+  refine ⟨d', ed0, hr, ?_, ?_, ?_, hC⟩ <;> rw [htv] <;> simp [allocLinkV, updV]
+
+/-! ## `create_dir` when the parent is a full SUB-DIRECTORY (Proofs/DirWriteSim43–44: `sub_writeEntry_grow_tv`,
+`createDir_sub_grow`). Non-vacuity: the directory `A` (cluster 2) holds `.`, `..` and 14 entries; `create_dir("N")`
+takes cluster 3 for the new directory and grows `A` by cluster 4; the `..` of the new directory names cluster 2. -/
+
+namespace Ex11
+def bytes : List Nat :=
+  List.replicate 512 0 ++
+  ([0xF8, 0xFF, 0xFF, 0xFF, 0xFF, 0xFF] ++ List.replicate 506 0) ++
+  ((Ex8.dirRec Ex8.nameA (some 2)).serialize ++ List.replicate 480 0) ++
+  ((Ex8.dirRec Ex8.dotN (some 2)).serialize ++ (Ex8.dirRec Ex8.ddN none).serialize ++
+    (List.replicate 14 (DirFileEntryData.new Ex.sfn2 0x10).serialize).flatten) ++
+  List.replicate 2048 0
+def dev : Dev := { img := Img.ofBytes bytes 4096, fs := Ex2.fs }
+end Ex11
+
+theorem Ex11.wf : Ex11.dev.img.WF := by
+  intro k p hk
+  simp only [Ex11.dev, Img.ofBytes, Std.HashMap.getElem?_insert] at hk
+  split at hk
+  · cases hk; decide +kernel
+  · simp at hk
+
+open FatVerif.FileSim FatVerif.Fat in
+theorem Ex11.sub : ChainDir Ex11.dev (FileH.new (some 2) (some Ex8.edA)) 2 [2] := by
+  have h2 : tabView Ex2.fs Ex11.dev.img 2 = .eoc := by decide +kernel
+  refine ⟨rfl, ⟨by decide, by decide, by decide, by decide, by decide, by decide, by decide, by decide, by decide,
+    by decide, by decide⟩, rfl, ?_, by decide, by decide, Or.inl rfl, (fun e he => by cases he; rfl), by decide, by decide⟩
+  exact Chain.last 2 (fun n hn => by
+    have : tabView Ex11.dev.fs Ex11.dev.img 2 = .eoc := h2
+    rw [this] at hn; cases hn)
+
+open FatVerif.FileSim FatVerif.Fat in
+example : ∃ (d' : Dev) (edN : DirEntryEditor),
+    run (createDir Ex3.env 1 (.file (FileH.new (some 2) (some Ex8.edA))) "N") Ex11.dev =
+      (.ok (.file (FileH.new (some 3) (some edN))), d') ∧
+    tabView d'.fs d'.img 2 = .data 4 ∧ tabView d'.fs d'.img 3 = .eoc ∧ tabView d'.fs d'.img 4 = .eoc ∧
+    (srcSlots d'.img (chainSrc Ex11.dev.fs [3]) (Ex11.dev.fs.clusterSize / 32)).getD 1 [] =
+      DirAlias.sfnWith (46 :: 46 :: List.replicate 9 32) (16 :: sfnStamp Ex11.dev.fs Ex11.dev.clock (some 2)) := by
+  have h2 : tabView Ex11.dev.fs Ex11.dev.img 2 = .eoc := by decide +kernel
+  obtain ⟨d', edN, hr, _, _, _, _, _, htv, hnew, _⟩ := createDir_sub_grow Ex11.dev 2 Ex8.edA [2] Ex11.sub Ex11.wf
+    (by decide) (by decide) (by decide) (by decide) (by decide)
+    ⟨fun n hn => (by cases hn), fun n hn => (by cases hn)⟩ rfl rfl (by decide) (by decide) (by decide) (by decide) Ex3.env
+    "N" "N" (by decide +kernel) (by decide) (by decide +kernel) [78, 32, 32, 32, 32, 32, 32, 32, 32, 32, 32]
+    (by decide +kernel) 3 (by decide +kernel) 2 rfl (by rw [h2]; exact fun h => by cases h) 4 (by decide +kernel)
+    (fun x hx _ => by
+      have h1 := clusterOff_ge Ex11.dev.fs x
+      have h2 : Ex11.dev.fs.firstDataSector * Ex11.dev.fs.bps = 1536 := by decide
+      have h3 : Ex8.edA.pos = 1024 := rfl
+      omega)
+    (by decide +kernel) (by decide +kernel) 0
+  refine ⟨d', edN, hr, ?_, ?_, ?_, ?_⟩
+  · rw [htv]; simp [allocLinkV, updV]
+  · rw [htv]; simp [allocLinkV, updV]
+  · rw [htv]; simp [allocLinkV, updV]
+  · rw [hnew]; rfl
+
+open FatVerif.FileSim FatVerif.Fat in
+/-- non-vacuity of `createFile_sub_grow`: `create_file("N")` in the full sub-directory `A` of `Ex11` grows it by
+    cluster 3 (FAT: 2 → 3, 3 = end of chain) -/
+example : ∃ (d' : Dev) (e : DirEntry),
+    run (createFile Ex3.env 1 (.file (FileH.new (some 2) (some Ex8.edA))) "N") Ex11.dev =
+      (.ok (FileH.new (e.firstCluster Ex11.dev.fs) (some e.editor)), d') ∧
+    tabView d'.fs d'.img 2 = .data 3 ∧ tabView d'.fs d'.img 3 = .eoc := by
+  have h2 : tabView Ex11.dev.fs Ex11.dev.img 2 = .eoc := by decide +kernel
+  obtain ⟨d', e, hr, _, _, _, _, _, _, htv⟩ := createFile_sub_grow Ex11.dev 2 Ex8.edA [2] Ex11.sub Ex11.wf
+    (by decide) (by decide) (by decide) (by decide) (by decide)
+    ⟨fun n hn => (by cases hn), fun n hn => (by cases hn)⟩ rfl Ex3.env "N" "N" (by decide +kernel) (by decide)
+    (by decide +kernel) [78, 32, 32, 32, 32, 32, 32, 32, 32, 32, 32] (by decide +kernel) 3 2 rfl
+    (by rw [h2]; exact fun h => by cases h) (by decide +kernel) (by decide) (by decide)
+    (fun x hx _ => by
+      have h1 := clusterOff_ge Ex11.dev.fs x
+      have h2 : Ex11.dev.fs.firstDataSector * Ex11.dev.fs.bps = 1536 := by decide
+      have h3 : Ex8.edA.pos = 1024 := rfl
+      omega)
+    (by decide +kernel) (by decide +kernel) 0
+  refine ⟨d', e, hr, ?_, ?_⟩ <;> rw [htv] <;> simp [allocLinkV, updV]
 
 end FatVerif.DirSim
